@@ -1,4 +1,5 @@
 import MakoModel.Codegen.Refine
+import MakoModel.Generated.RuntimeFacts
 /-!
 # C13 – an exception at any point leaves the render state consistent
 
@@ -385,5 +386,46 @@ theorem error_page_replaces_shared_stack (h : CtxHeap) (caller : CtxRef) (page :
 
 example : (renderErrorHeap ⟨[[(0, "partial".toList), (1, "deeper".toList)]]⟩ (CtxRef.copy ⟨0⟩) "PAGE".toList).stackOf ⟨0⟩
     = [(0, "PAGE".toList)] := by decide
+
+/-! ## cleanup does not depend on the class of the exception -/
+
+/-- **What /repo's runtime helpers do now** (regenerated from `mako/runtime.py` on every run): `capture()` pops its
+    buffer and `supports_caller` its frame in a `finally` (no `except <class>` in between), so a `KeyboardInterrupt`,
+    `GeneratorExit` or a user `BaseException` is cleaned up after exactly like an `Exception`; the model's `capture`
+    and frames are written accordingly.  An edit that narrows the cleanup to `except Exception:` breaks this. -/
+theorem runtime_cleanup_uses_finally :
+    Generated.RuntimeFacts.captureCleanup = "finally" ∧ Generated.RuntimeFacts.supportsCallerCleanup = "finally" := by
+  decide
+
+/-- … and the error paths are the ones `renderErrorObj` / `includeErrorObj` / `renderErrorHeap` model:
+    `_include_file` catches `Exception` only and re-raises with a bare `raise`; `_exec_template` has
+    `except Exception:` and a bare `except:`; `_render_error` replaces the buffer stack in place and re-raises the
+    object found in `sys.exc_info()`. -/
+theorem runtime_error_paths_as_modelled :
+    Generated.RuntimeFacts.includeHandlerCatches = ["Exception"] ∧
+    Generated.RuntimeFacts.execTemplateCatches = ["Exception", ""] ∧
+    Generated.RuntimeFacts.includeReraisesBare = true ∧ Generated.RuntimeFacts.renderErrorInPlace = true ∧
+    Generated.RuntimeFacts.reraisesFromExcInfo = true := by decide
+
+/-- **`finally` semantics**: when the body of a generated `try … finally` ends with an exception, the finalizer is
+    executed from the state the body left, whatever the exception is; the exception that goes on is the same one
+    unless the finalizer itself does not end normally.  (The model has one kind of `try/finally` and no cleanup that
+    inspects the exception; the only class-sensitive construct is the user's own `% except <class>`.) -/
+theorem finally_runs_for_every_exception (c : Cfg) (n : Nat) (b f : Stmt) (l l1 l2 : Loc) (σ σ1 σ2 : St) (e : Nat)
+    (o2 : Outcome) (hb : exec c n b l σ = (.exc e, l1, σ1)) (hf : exec c n f l1 σ1 = (o2, l2, σ2)) :
+    exec c (n + 1) (.tryFinally b f) l σ = (if o2 = .normal then .exc e else o2, l2, σ2) := by
+  simp only [exec, hb, hf]
+  cases o2 <;> simp
+
+example : ∃ l1 σ1, exec ⟨[], 0⟩ 3 (.write .boom) (Loc.init 0) St.init = (.exc excBoom, l1, σ1) := ⟨_, _, rfl⟩
+
+/-- `capture()`: the buffer it pushed is popped when the captured callable raises – for every exception `e` alike;
+    the state afterwards does not depend on `e` -/
+theorem capture_pops_for_every_exception (c : Cfg) (n : Nat) (f : Name) (clo : Clo) (l : Loc) (σ σ3 : St)
+    (e : Nat) (b : Nat × Str) (rest : List (Nat × Str)) (hres : resolve c l f = some clo)
+    (hinv : invoke c (n + 1) clo [] l { σ with bufs := (σ.nextId, []) :: σ.bufs, nextId := σ.nextId + 1 } = (.exc e, σ3))
+    (hb3 : σ3.bufs = b :: rest) :
+    eval c (n + 2) (.capture f []) l σ = (.exc e, { σ3 with bufs := rest }) := by
+  simp [eval, evalArgs, hres, hinv, hb3]
 
 end MakoModel.C13
